@@ -41,6 +41,8 @@ pub struct Trg {
     started: usize,
     next_id: i64,
     next_trig: i64,
+    /// queued follow-up operations (refill of the INSERT ... SELECT source table)
+    pending: Vec<Op>,
 }
 
 fn cmp_op(c: Cmp) -> BinaryOperator {
@@ -180,7 +182,7 @@ impl Scenario for Trg {
     const NAME: &'static str = "trig";
 
     fn new(_prop: &str, sw: &Swarm) -> Self {
-        Trg { sut: Sut::new(), sw: sw.clone(), trigs: Vec::new(), started: 0, next_id: 0, next_trig: 0 }
+        Trg { sut: Sut::new(), sw: sw.clone(), trigs: Vec::new(), started: 0, next_id: 0, next_trig: 0, pending: Vec::new() }
     }
 
     fn next_op(&mut self, rng: &mut Rng, _cx: &mut Ctx) -> Option<Op> {
@@ -188,7 +190,11 @@ impl Scenario for Trg {
         match self.started {
             1 => return Some(Op::new(Kind::CreateTable, "CREATE TABLE t (id INTEGER PRIMARY KEY, v INTEGER, w INTEGER)".into()).table("t")),
             2 => return Some(Op::new(Kind::CreateTable, "CREATE TABLE a (trg INTEGER, o_id INTEGER, o_v INTEGER, n_id INTEGER, n_v INTEGER)".into()).table("a")),
+            3 => return Some(Op::new(Kind::CreateTable, "CREATE TABLE s (id INTEGER PRIMARY KEY, v INTEGER, w INTEGER)".into()).table("s")),
             _ => {}
+        }
+        if let Some(op) = self.pending.pop() {
+            return Some(op);
         }
         let want_trigger = self.trigs.len() < 2 || (self.trigs.len() < 5 && rng.chance(1, 8));
         if want_trigger {
@@ -213,6 +219,28 @@ impl Scenario for Trg {
         }
         let dom = self.sw.domain.max(4);
         let existing: Vec<i64> = table_rows(&self.sut, "t").unwrap_or_default().iter().filter_map(|r| if let SqlValue::Integer(i) = r[0] { Some(i) } else { None }).collect();
+        if rng.chance(1, 9) {
+            // INSERT ... SELECT from a source table refilled with fresh keys: the bulk-transfer path
+            // (SELECT * FROM s) or the general path (column list / WHERE)
+            let n = 1 + rng.usize(3);
+            let rows: Vec<String> = (0..n)
+                .map(|_| {
+                    self.next_id += 1;
+                    let v = if rng.chance(self.sw.null_pct, 100) { "NULL".to_string() } else { rng.range(0, dom).to_string() };
+                    format!("({}, {}, {})", self.next_id, v, rng.range(0, 3))
+                })
+                .collect();
+            let (sel, q) = match rng.below(3) {
+                0 => ("INSERT INTO t SELECT * FROM s".to_string(), "SELECT id, v, w FROM s".to_string()),
+                1 => ("INSERT INTO t (id, v, w) SELECT id, v, w FROM s".to_string(), "SELECT id, v, w FROM s".to_string()),
+                _ => ("INSERT INTO t SELECT * FROM s WHERE v IS NOT NULL".to_string(), "SELECT id, v, w FROM s WHERE v IS NOT NULL".to_string()),
+            };
+            let mut ins = Op::new(Kind::Insert, sel).table("t");
+            ins.pred = Some(q);
+            self.pending.push(ins);
+            self.pending.push(Op::new(Kind::Other, format!("INSERT INTO s VALUES {}", rows.join(", "))));
+            return Some(Op::new(Kind::Other, "DELETE FROM s".into()));
+        }
         Some(match rng.below(10) {
             0..=4 => {
                 let n = 1 + rng.usize(self.sw.max_rows_stmt.min(4));
@@ -281,6 +309,16 @@ impl Scenario for Trg {
                 let pre_a = table_rows(&self.sut, "a").unwrap_or_default();
                 // affected rows and their new images, read on the pre-state
                 let (event, olds, news, assigns_v): (u8, Vec<Vec<SqlValue>>, Vec<Vec<SqlValue>>, bool) = match op.kind {
+                    Kind::Insert if op.rows.is_empty() && op.pred.is_some() => {
+                        // INSERT ... SELECT: the new rows are what the SELECT returns on the pre-state
+                        match self.sut.query(op.pred.as_deref().unwrap_or("")) {
+                            Out::Rows(r) => {
+                                cx.reach("insert_select");
+                                (0, vec![], r, false)
+                            }
+                            _ => return Step::EndForeign("select_failed".into()),
+                        }
+                    }
                     Kind::Insert => {
                         let news = op.rows.iter().map(|r| r.iter().map(|l| match l { Lit::Int(i) => SqlValue::Integer(*i), _ => SqlValue::Null }).collect()).collect();
                         (0, vec![], news, false)
@@ -349,6 +387,11 @@ impl Scenario for Trg {
                         format!("{} ({} affected rows): audit table has {} rows, expected {}; unexpected {:?}; missing {:?}; triggers {:?}", op.sql, olds.len().max(news.len()), got.len(), want_all.len(), extra.iter().take(4).collect::<Vec<_>>(), missing.iter().take(4).collect::<Vec<_>>(), self.trigs),
                     );
                 }
+                Step::Continue
+            }
+            Kind::Other => {
+                let out = self.sut.exec(&op.sql);
+                cx.log.str(out.class());
                 Step::Continue
             }
             _ => Step::Continue,
